@@ -6,13 +6,13 @@ var realLib = []string{"github.com/tdewolff/parse/v2 (working tree of /repo, unm
 
 func init() {
 	cfgs["C13"] = &propCfg{
-		quickRuns: 600000, thoroughRuns: 24000000,
+		quickRuns: 300000, thoroughRuns: 24000000,
 		quickBudget: 100 * time.Second, thoroughBudget: 14 * time.Minute,
 		requiredProbes: []string{
 			"probe_refill_unfinished_token", "probe_refill_inplace", "probe_refill_reuse_pool_block", "probe_refill_fresh_alloc",
 			"probe_buffer_growth", "eof_with_data", "fault_zero_before_eof", "fault_error_with_data", "fault_error_without_data",
 			"probe_held_expired", "probe_held_verified_after_swap", "probe_shiftext_had_to_read", "probe_memory_family_runs",
-			"probe_peekrune_multibyte", "fault_zero_read", "fault_short_read", "probe_drained_to_end",
+			"probe_peekrune_multibyte", "fault_zero_read", "fault_short_read", "probe_drained_to_end", "probe_long_input", "probe_memory_family_lagged_free",
 		},
 		rule: "one run = one seeded history (swarm-configured operation mix, buffer size, Free discipline) on the real buffer.StreamLexer over a simulated reader whose chunking/zero reads/EOF style/failure point are drawn per Read call; non-trivial = at least one refill happened while a token was unfinished, or an injected reader failure fired, or the run belongs to the long-stream memory family; distinct = hash of the sequence (operation kind, refill kind caused) differs",
 		realStub: map[string][]string{
@@ -46,14 +46,14 @@ func init() {
 	}
 
 	cfgs["C19"] = &propCfg{
-		quickRuns: 400000, thoroughRuns: 24000000,
+		quickRuns: 300000, thoroughRuns: 24000000,
 		quickBudget: 150 * time.Second, thoroughBudget: 14 * time.Minute,
 		raceShare: 4, singleProc: true,
 		requiredProbes: []string{
 			"fault_truncated", "fault_short_read", "eof_with_data", "eof_with_exact_fit", "fault_error_with_data", "fault_error_without_data",
 			"probe_typed_read_ran_past_end", "probe_typed_read_straddles_end", "probe_mirror_runs", "probe_clone", "probe_iotest_runs",
 			"probe_ioerr_runs", "probe_ioerr_read_crossed_failure", "probe_ioerr_constructor_failed", "probe_bitmap_runs", "probe_bitmap_full_buffer",
-			"probe_parallel_runs", "probe_parallel_lock_contended", "probe_parallel_task_switches",
+			"probe_parallel_runs", "probe_parallel_lock_contended", "probe_parallel_task_switches", "probe_big_blob",
 		},
 		rule: "one run = one seeded history: typed writes through the real BinaryWriter (both byte orders, optional prefix), truncation at a tape-chosen byte, then typed reads / ReadBytes / Read / ReadAt / Seek / Clone on the real BinaryReader over one of 11 constructors (memory, reader with Bytes(), simulated ReadSeeker with and without size, simulated ReaderAt, ReadAll path, streaming reader, real file by handle and by path, mmap by path and by handle) with short reads and both EOF styles drawn per Read call; separate families: injected non-EOF failure at byte F, bitmap writer/reader, and 2-4 parallel ReadAt/Clone callers interleaved at every Seek/Read/ReadAt of the shared source by the seeded scheduler; non-trivial = truncated, or a short read / EOF-with-data / exact-fit EOF fired, or a failure was injected, or a bitmap run with >=1 bit, or a scheduled run with a contended lock or >=3 task switches; distinct = hash of (backend, byte order, operation-kind sequence, whence values, schedule)",
 		realStub: map[string][]string{
@@ -75,7 +75,7 @@ func init() {
 		requiredProbes: []string{
 			"wl_css.Lexer", "wl_css.Parser", "wl_html.Lexer", "wl_xml.Lexer", "wl_json.Parser", "wl_js.Lexer", "wl_js.Parse+print+Walk", "wl_strconv", "wl_helpers",
 			"wl_Position/Error", "wl_Input+buffer.Lexer", "wl_StreamLexer", "wl_Indenter", "wl_BinaryWriter/Reader",
-			"probe_identical_inputs", "probe_fresh_process_compared", "probe_sched_task_switches", "probe_scheduled_runs",
+			"probe_identical_inputs", "probe_focused_runs", "probe_decoy_before_real", "probe_fresh_process_compared", "probe_sched_task_switches", "probe_scheduled_runs",
 		},
 		rule: "one run = 2-6 caller tasks, each a deterministic workload (one of 14 entry-point families) over a private instance and private input from an embedded corpus, spliced/mutated/truncated from the tape, half of the runs with two tasks on byte-identical input; executed solo in order, interleaved one-at-a-time by the seeded baton scheduler (yield before every public call and inside every simulated reader/writer/visitor), solo again in reverse order, and for a sample in a fresh process; half of the workers run the same runs under the Go race detector, to which the scheduler is invisible; non-trivial = at least two tasks took at least two turns each; distinct = hash of (multiset of workload kinds, schedule projected on (task, yield site))",
 		realStub: map[string][]string{
